@@ -128,3 +128,54 @@ Proof.
   exact (proj2 (proj2 (proj2 (JsrProofs.jbuild_jinv W Hwf o roots g Hb))) v c Hin).
 Qed.
 Print Assumptions C05_registry_locker_told_only_new.
+
+(* Content the loader would reject for a checksum mismatch is never admitted: every module entry of
+   a file of a registry package that has source text has exactly the source hash the version
+   manifest gives for that file (whether it was parsed from the load, taken from the cache-only
+   probe, or built from embedded module info and filled in by the content load), for loaders that
+   report the requested specifier as the final one. *)
+From DG Require Proofs.JsrAdmit.
+
+Theorem C05_registry_rejected_never_admitted : forall W o roots g,
+  Jsr.wf_jworld W = true -> JsrAdmit.NoAlias W -> Jsr.jbuild W o roots = Some g ->
+  forall s src deps p v path,
+    lookup s (Jsr.jg_slots g) = Some (Jsr.JsMod src deps) -> src <> 0 -> Jsr.cls_of W s = Jsr.CFile p v path ->
+    exists vi, Jsr.v_meta (Jsr.ver_of W (p, v)) = Jsr.VOk vi /\ Jsr.get_checksum W vi path = Some src.
+Proof.
+  intros W o roots g Hwf Hna Hb s src deps p v path Hl Hs Hc.
+  pose proof (JsrAdmit.jbuild_admits_only_vouched W Hwf Hna o roots g Hb s src deps Hl Hs) as H.
+  unfold JsrAdmit.SrcOK in H. rewrite Hc in H.
+  destruct H as [p' [v' [path' [vi [Hc' [Hm Hg]]]]]]. rewrite Hc in Hc'. inversion Hc'; subst.
+  exists vi. split; assumption.
+Qed.
+Print Assumptions C05_registry_rejected_never_admitted.
+
+(* Non-vacuity: jsr:@s/a@1 (1) -> https://jsr.io/@s/a/1.0.0/mod.ts (2), embedded module info, probe miss,
+   content load served with the manifest's checksum 7: hypotheses hold and the entry has source hash 7. *)
+Definition c05j_world : Jsr.jworld :=
+  {| Jsr.jw_cls := [(1, Jsr.CJsr 1 1 1); (2, Jsr.CFile 1 1 1)];
+     Jsr.jw_use := [(2, Jsr.JModule 2 {| Jsr.jm_hash := 7; Jsr.jm_ok := true; Jsr.jm_decl := false; Jsr.jm_deps := [] |})];
+     Jsr.jw_only := [];
+     Jsr.jw_pkgs := [(1, {| Jsr.p_url := 4; Jsr.p_use := Jsr.POk [(1, false)]; Jsr.p_reload := Jsr.POk [(1, false)] |})];
+     Jsr.jw_vers := [((1, 1), {| Jsr.v_url := 5; Jsr.v_base := 6;
+                                  Jsr.v_meta := Jsr.VOk {| Jsr.vi_hash := 9; Jsr.vi_lockfile_checksum := None;
+                                                           Jsr.vi_exports := [(1, 2)]; Jsr.vi_manifest := [(1, Jsr.MSha 7)];
+                                                           Jsr.vi_modinfo := [(1, [])] |};
+                                  Jsr.v_cached := false |})];
+     Jsr.jw_match := [(1, [1])]; Jsr.jw_lock_pkg := None; Jsr.jw_lock_remote := []; Jsr.jw_http := [2];
+     Jsr.jw_missing_chk := 8; Jsr.jw_max_redirects := 10 |}.
+Example C05_registry_nonvacuous :
+  Jsr.wf_jworld c05j_world = true /\ JsrAdmit.NoAlias c05j_world /\
+  match Jsr.jbuild c05j_world {| Jsr.jo_prefer_cached := false |} [1] with
+  | Some g => lookup 2 (Jsr.jg_slots g) = Some (Jsr.JsMod 7 []) /\
+              Jsr.jg_calls g = [ {| Jsr.jc_spec := 4; Jsr.jc_setting := 0; Jsr.jc_checksum := None |};
+                                 {| Jsr.jc_spec := 5; Jsr.jc_setting := 0; Jsr.jc_checksum := None |};
+                                 {| Jsr.jc_spec := 2; Jsr.jc_setting := 2; Jsr.jc_checksum := Some 7 |};
+                                 {| Jsr.jc_spec := 2; Jsr.jc_setting := 0; Jsr.jc_checksum := Some 7 |} ]
+  | None => False
+  end.
+Proof.
+  split; [vm_compute; reflexivity|]. split.
+  - intro s. unfold Jsr.use_of, Jsr.only_of. cbn. destruct (N.eqb s 2) eqn:E; cbn; [apply N.eqb_eq in E; auto | auto].
+  - vm_compute. split; reflexivity.
+Qed.
